@@ -61,7 +61,7 @@ Definition target_ok (k : callable_kind) (w : who) (p : posargs) : bool :=
   match w, p with
   | WTarget, PArgs => true
   | WOverload, PArgs => true                     (* overload_of(f) stands for f (C14) *)
-  | WConverted TSelf, PSelfArgs => match k with KBoundMethod => true | _ => false end
+  | WConverted TSelf, PSelfArgs => match k with KBoundMethod | KBoundMethodFalsy => true | _ => false end
         (* m( *a ) = m.__func__(m.__self__, *a ) *)
   | WConverted TSelf, PArgs => match k with KFunction | KFunctionSelfAttr => true | _ => false end
   | WConverted TClassCall, PFArgs => match k with KCallableObj => true | _ => false end
